@@ -136,7 +136,7 @@ class Multi:
         lsums = [zi(v) for v in base[0]]
         c.outcome = {'list_bins': [len(l) for l in base[1]]}
         flat = [zi(v) for l in base[1] for v in l]
-        for press in ('arr', 'dict', 'nv', 'intnames', 'intdict'):
+        for press in ('arr', 'dict', 'nv', 'intnames', 'intdict', 'falsynames', 'falsydict'):
             items, valueof = present(press, vals)
             try:
                 s2, l2 = self.call(c, bi, items, valueof)
